@@ -161,7 +161,7 @@ Definition Inv (ls : lstate) : Prop := Alive (l_chain ls).
 
 Lemma process_select_inv ls en : Inv ls ->
   let '(ls', fl) := process_select eval w q ls en in
-  Live (l_chain ls') /\ (fl = Continue -> Alive (l_chain ls')) /\ (buffers cfg -> Alive (l_chain ls'))
+  Live (l_chain ls') /\ (fl <> Stop -> Alive (l_chain ls')) /\ (buffers cfg -> Alive (l_chain ls'))
   /\ (is_agg q = true -> l_chain ls' = l_chain ls).
 Proof.
   intros Ha. unfold process_select. destruct (is_agg q) eqn:Eagg.
@@ -176,13 +176,13 @@ Proof.
     + unfold write_rows. fold cfg. destruct (chain_feed_keeps w cfg rs (l_chain ls) Ha) as [K1 [K2 K3]].
       destruct (chain_feed w cfg (l_chain ls) rs) as [st' ok]. cbn [fst snd l_chain] in *.
       split; [assumption|]. split; [|split; [assumption | discriminate]].
-      destruct ok; [intros _; apply K1; reflexivity | discriminate].
+      destruct ok; [intros _; apply K1; reflexivity | intros C; exfalso; apply C; reflexivity].
     + cbn. repeat split; try (left; assumption); try discriminate; intros; assumption.
 Qed.
 
 Lemma process_matches_inv nr a : forall ms ls, Inv ls ->
   let '(ls', fl) := process_matches eval w q ls nr a ms in
-  Live (l_chain ls') /\ (fl = Continue -> Alive (l_chain ls')) /\ (buffers cfg -> Alive (l_chain ls'))
+  Live (l_chain ls') /\ (fl <> Stop -> Alive (l_chain ls')) /\ (buffers cfg -> Alive (l_chain ls'))
   /\ (is_agg q = true -> l_chain ls' = l_chain ls).
 Proof.
   induction ms as [|b ms IH]; intros ls Ha.
@@ -191,22 +191,22 @@ Proof.
     pose proof (process_select_inv ls {| e_nr := nr; e_nf := length a; e_a := a; e_b := b; e_nu := l_nu ls |} Ha) as P.
     destruct (process_select eval w q ls _) as [ls1 fl1]. destruct P as [P1 [P2 [P3 P4]]].
     destruct fl1; try (repeat split; try assumption; discriminate).
-    specialize (IH ls1 (P2 eq_refl)). destruct (process_matches eval w q ls1 nr a ms) as [ls2 fl2].
+    assert (Hc : Continue <> Stop) by discriminate. specialize (IH ls1 (P2 Hc)). destruct (process_matches eval w q ls1 nr a ms) as [ls2 fl2].
     destruct IH as [I1 [I2 [I3 I4]]]. repeat split; try assumption. intros Hg. rewrite (I4 Hg). apply P4. assumption.
 Qed.
 
 Lemma process_update_inv ls nr a b m asg : Inv ls -> is_agg q = false ->
   let '(ls', fl) := process_update eval w q ls nr a b m asg in
-  Live (l_chain ls') /\ (fl = Continue -> Alive (l_chain ls')) /\ (buffers cfg -> Alive (l_chain ls')).
+  Live (l_chain ls') /\ (fl <> Stop -> Alive (l_chain ls')) /\ (buffers cfg -> Alive (l_chain ls')).
 Proof.
   intros Ha _. unfold process_update.
   assert (Hw : forall up nu, let '(st', ok) := chain_write w cfg (l_chain ls) [] up in
              Live (l_chain {| l_chain := st'; l_agg := l_agg ls; l_nu := nu |})
-             /\ ((if ok then Continue else Stop) = Continue -> Alive st') /\ (buffers cfg -> Alive st')).
+             /\ ((if ok then Continue else Stop) <> Stop -> Alive st') /\ (buffers cfg -> Alive st')).
   { intros up nu. destruct (chain_write_keeps w cfg (l_chain ls) [] up Ha) as [K1 K2].
     pose proof (fun Hb => chain_write_buffered w cfg (l_chain ls) [] up Hb Ha) as K3.
     destruct (chain_write w cfg (l_chain ls) [] up) as [st' ok]. cbn [fst snd l_chain] in *.
-    split; [assumption|]. split; [destruct ok; [intros _; apply K1; reflexivity | discriminate] | intros Hb; apply (K3 Hb)]. }
+    split; [assumption|]. split; [destruct ok; [intros _; apply K1; reflexivity | intros C; exfalso; apply C; reflexivity] | intros Hb; apply (K3 Hb)]. }
   destruct (if m then where_ok eval q _ else Ok false) as [[|]|e].
   - destruct (apply_assigns eval _ _ asg) as [up'|e2].
     + specialize (Hw up' (S (l_nu ls))). fold cfg. destruct (chain_write w cfg (l_chain ls) [] up') as [st' ok]. exact Hw.
@@ -225,7 +225,7 @@ Qed.
 
 Lemma process_record_inv jm ls nr a : Inv ls ->
   let '(ls', fl) := process_record eval w q jm ls nr a in
-  Live (l_chain ls') /\ (fl = Continue -> Alive (l_chain ls')) /\ (buffers cfg -> Alive (l_chain ls'))
+  Live (l_chain ls') /\ (fl <> Stop -> Alive (l_chain ls')) /\ (buffers cfg -> Alive (l_chain ls'))
   /\ (is_agg q = true -> l_chain ls' = l_chain ls).
 Proof.
   intros Ha. unfold process_record.
@@ -238,7 +238,7 @@ Proof.
     repeat split; try (left; assumption); try discriminate; intros; assumption.
   - pose proof (update_not_agg asg Ek) as Hn.
     assert (Hupd : forall b m, let '(ls', fl) := process_update eval w q ls nr a b m asg in
-              Live (l_chain ls') /\ (fl = Continue -> Alive (l_chain ls')) /\ (buffers cfg -> Alive (l_chain ls')) /\ (is_agg q = true -> l_chain ls' = l_chain ls)).
+              Live (l_chain ls') /\ (fl <> Stop -> Alive (l_chain ls')) /\ (buffers cfg -> Alive (l_chain ls')) /\ (is_agg q = true -> l_chain ls' = l_chain ls)).
     { intros b m. pose proof (process_update_inv ls nr a b m asg Ha Hn) as P. destruct (process_update eval w q ls nr a b m asg) as [ls' fl].
       destruct P as [P1 [P2 P3]]. repeat split; try assumption. intros C. congruence. }
     destruct (q_join q); [destruct jm|]; try apply Hupd.
@@ -248,17 +248,18 @@ Qed.
 (* the whole loop *)
 Lemma main_loop_inv jm : forall A ls nr, Inv ls ->
   let '(ls', _, err) := main_loop eval w q jm ls nr A in
-  Live (l_chain ls') /\ (buffers cfg -> Alive (l_chain ls')) /\ (is_agg q = true -> l_chain ls' = l_chain ls).
+  Live (l_chain ls') /\ (buffers cfg -> Alive (l_chain ls')) /\ (is_agg q = true -> l_chain ls' = l_chain ls)
+  /\ (err <> None -> Alive (l_chain ls')).
 Proof.
   induction A as [|a A IH]; intros ls nr Ha.
-  - cbn. repeat split; try (left; assumption); intros; assumption.
+  - cbn. split; [left; assumption|]. split; [intros; assumption|]. split; [reflexivity|]. intros C. exfalso. apply C. reflexivity.
   - cbn [main_loop]. pose proof (process_record_inv jm ls (S nr) a Ha) as P.
     destruct (process_record eval w q jm ls (S nr) a) as [ls1 fl]. destruct P as [P1 [P2 [P3 P4]]].
     destruct fl.
-    + specialize (IH ls1 (S nr) (P2 eq_refl)). destruct (main_loop eval w q jm ls1 (S nr) A) as [[ls2 n2] e2].
-      destruct IH as [I1 [I2 I3]]. repeat split; try assumption. intros Hg. rewrite (I3 Hg). apply P4. assumption.
-    + repeat split; assumption.
-    + repeat split; assumption.
+    + assert (Hc : Continue <> Stop) by discriminate. specialize (IH ls1 (S nr) (P2 Hc)). destruct (main_loop eval w q jm ls1 (S nr) A) as [[ls2 n2] e2].
+      destruct IH as [I1 [I2 [I3 I4]]]. repeat split; try assumption. intros Hg. rewrite (I3 Hg). apply P4. assumption.
+    + split; [assumption|]. split; [assumption|]. split; [assumption|]. intros C. exfalso. apply C. reflexivity.
+    + split; [assumption|]. split; [assumption|]. split; [assumption|]. intros _. apply P2. discriminate.
 Qed.
 
 (* the aggregate writer only exists in aggregate queries *)
@@ -294,34 +295,46 @@ Theorem run_protocol hdr A B :
   let o := run eval w q hdr A B in
   match o_error o with
   | None => Done (o_chain o)                       (* [header] writes* [one refused write] finish *)
-  | Some _ => Live (o_chain o)                     (* [header] writes* [one refused write]; finish is never called *)
+  | Some _ => Alive (o_chain o)                    (* [header] writes* - all accepted; finish is never called *)
   end.
 Proof.
   unfold run. rewrite Hst.
   assert (Hmain : forall jm,
      let '(ls, pulls, err) := main_loop eval w q jm {| l_chain := set_header chain_init hdr; l_agg := None; l_nu := 0 |} 0 A in
      match err with
-     | Some e => Live (l_chain ls)
+     | Some e => Alive (l_chain ls)
      | None => let '(st, ferr) := finish w q ls in
-               match ferr with None => Done st | Some _ => Live st end
+               match ferr with None => Done st | Some _ => Alive st end
      end).
   { intros jm. set (ls0 := {| l_chain := set_header chain_init hdr; l_agg := None; l_nu := 0 |}).
     pose proof (main_loop_inv jm A ls0 0 (alive_set_header hdr)) as P.
     pose proof (main_loop_agg_none jm A ls0 0) as Q.
-    destruct (main_loop eval w q jm ls0 0 A) as [[ls pulls] err]. cbn [fst] in Q. destruct P as [P1 [P2 P3]].
-    destruct err as [e|]; [exact P1|]. unfold finish. destruct (l_agg ls) as [a|] eqn:Eg.
+    destruct (main_loop eval w q jm ls0 0 A) as [[ls pulls] err]. cbn [fst] in Q. destruct P as [P1 [P2 [P3 P4]]].
+    destruct err as [e|]; [apply P4; discriminate|]. unfold finish. destruct (l_agg ls) as [a|] eqn:Eg.
     - assert (Hy : is_agg q = true).
       { destruct (is_agg q) eqn:E; [reflexivity|]. specialize (Q eq_refl eq_refl). discriminate. }
       assert (Hal : Alive (l_chain ls)) by (rewrite (P3 Hy); apply alive_set_header).
-      destruct (final_rows (a_cols a) (sort_keys (a_keys a))) as [rows|e]; [|left; exact Hal].
+      destruct (final_rows (a_cols a) (sort_keys (a_keys a))) as [rows|e]; [|exact Hal].
       apply base_finish_done. apply feed_live; [apply top_write_keeps | exact Hal].
     - apply chain_finish_done; assumption. }
   destruct (q_join q) as [js|].
-  - destruct (build (j_rhs js) B) as [m|bnr]; [|left; apply alive_init].
+  - destruct (build (j_rhs js) B) as [m|bnr]; [|apply alive_init].
     specialize (Hmain (Some m)). destruct (main_loop eval w q (Some m) _ 0 A) as [[ls pulls] [e|]]; [exact Hmain|].
     destruct (finish w q ls) as [st [fe|]]; exact Hmain.
   - specialize (Hmain None). destruct (main_loop eval w q None _ 0 A) as [[ls pulls] [e|]]; [exact Hmain|].
     destruct (finish w q ls) as [st [fe|]]; exact Hmain.
+Qed.
+
+(* consequently: a run in which the writer refused a write returns WITHOUT error *)
+Theorem refusal_is_not_an_error hdr A B r :
+  In (EvWrite r false) (s_trace (o_chain (run eval w q hdr A B))) -> o_error (run eval w q hdr A B) = None.
+Proof.
+  intros Hin. pose proof (run_protocol hdr A B) as P. cbn zeta in P.
+  destruct (o_error (run eval w q hdr A B)) as [e|]; [|reflexivity]. exfalso.
+  destruct P as [hs [ws [E [Hh Hw]]]]. unfold chron in E. apply in_rev in Hin. rewrite E in Hin.
+  apply in_app_or in Hin. destruct Hin as [Hin | Hin].
+  - destruct Hh as [-> | [h ->]]; [contradiction | destruct Hin as [C | []]; discriminate].
+  - rewrite Forall_forall in Hw. destruct (Hw _ Hin) as [r0 C]. discriminate.
 Qed.
 
 End Run.
